@@ -97,6 +97,13 @@ type upstreamSrv struct {
 	up     bool
 	health int // count of health checks seen
 	custom http.HandlerFunc // replaces the scripted handler (set before traffic starts)
+	sick   bool             // the listener stays open but every request (health checks included) is answered 500
+}
+
+func (u *upstreamSrv) setSick(v bool) {
+	u.mu.Lock()
+	u.sick = v
+	u.mu.Unlock()
 }
 
 var upstreamPortCursor int64
@@ -162,8 +169,14 @@ func (u *upstreamSrv) Start() error {
 func (u *upstreamSrv) Stop() {
 	u.mu.Lock()
 	s := u.srv
+	ln := u.ln
 	u.up = false
 	u.mu.Unlock()
+	// the listener is closed here and now: http.Server.Close only closes listeners its Serve
+	// call has registered, which a Stop right after a Start can overtake
+	if ln != nil {
+		_ = ln.Close()
+	}
 	if s != nil {
 		_ = s.Close()
 	}
@@ -271,12 +284,19 @@ func decodeBody(enc string, data []byte) ([]byte, error) {
 func (u *upstreamSrv) handle(w http.ResponseWriter, r *http.Request) {
 	u.mu.Lock()
 	custom := u.custom
+	sick := u.sick
 	u.mu.Unlock()
+	if sick {
+		w.WriteHeader(500)
+		return
+	}
 	if custom != nil && r.URL.Path != "/health" {
 		custom(w, r)
 		return
 	}
-	if r.URL.Path == "/health" || r.Header.Get("X-Spec") == "" && r.URL.Path == "/ping" {
+	// health checks: /health, or /ping and / without the headers every harness client sends
+	if r.URL.Path == "/health" || r.Header.Get("X-Spec") == "" && r.URL.Path == "/ping" ||
+		r.Header.Get("X-Spec") == "" && r.Header.Get("X-Req-Id") == "" && r.URL.Path == "/" {
 		u.mu.Lock()
 		u.health++
 		u.mu.Unlock()
